@@ -307,11 +307,11 @@ def t_withdraw_window(world):
             lim1 = ev(fget(eng, g1, 'MarginfiGroup', 'deleverage_withdraw_window_cache.daily_limit'))
             ob.prove(eng, r, h, lim1 == lim0, f'{kind}: the daily limit is not written', role='limit-written')
             if variant == 0:
-                ob.prove(eng, r, h, wt1 == new_wt, 'withdrawn_today\' = (0 if the window rolled over else withdrawn_today) + floor(value), saturating at u32::MAX', role='window-accounting')
-                ob.prove(eng, r, h, lr1 == z3.If(reset, N, lr0), 'the window start moves (to now) only when >= 24h have passed since the last reset', role='window-reset')
-                ob.prove(eng, r, h + [lim0 != 0], wt1 <= lim0, 'Ok with a limit => the amount withdrawn in the window stays within the limit', role='window-limit')
+                ob.prove(eng, r, h, wt1 == new_wt, 'withdrawn_today\' = (0 if the window rolled over else withdrawn_today) + floor(value), saturating at u32::MAX', role='window-accounting', replay='window')
+                ob.prove(eng, r, h, lr1 == z3.If(reset, N, lr0), 'the window start moves (to now) only when >= 24h have passed since the last reset', role='window-reset', replay='window')
+                ob.prove(eng, r, h + [lim0 != 0], wt1 <= lim0, 'Ok with a limit => the amount withdrawn in the window stays within the limit', role='window-limit', replay='window')
             else:
-                ob.prove(eng, r, h, z3.And(lim0 != 0, new_wt > lim0), 'rejected only when the window total would exceed a non-zero limit', role='window-reject')
+                ob.prove(eng, r, h, z3.And(lim0 != 0, new_wt > lim0), 'rejected only when the window total would exceed a non-zero limit', role='window-reject', replay='window')
     ob.need_witness()
     return [ob]
 
@@ -327,3 +327,22 @@ _t_shared_structs = tasks
 def tasks(tier):
     from specs.C08 import shared_struct_tasks
     return _t_shared_structs(tier) + shared_struct_tasks('C12.r.', ['LendingPoolConfigureBank', 'LendingPoolConfigureBankInterestOnly', 'LendingPoolConfigureBankLimitsOnly', 'LendingPoolConfigureBankEmode', 'LendingPoolCloneEmode', 'LendingPoolSetupEmissions', 'LendingPoolUpdateEmissionsParameters', 'WriteBankMetadata', 'LendingPoolConfigureBankOracle', 'LendingPoolSetFixedOraclePrice', 'LendingAccountPurgeDelevBalance', 'LendingPoolForceTokenlessRepayComplete', 'StartDeleverage', 'EndDeleverage', 'ConfigureDeleverageWithdrawalLimit', 'MarginfiGroupConfigure'])
+
+
+
+def replay_window(model, spec=None):
+    """native replay of a C12.d.window counterexample against the real update_withdrawn_equity, judged by an independent reference of the rolling window"""
+    g = lambda n, d=0: int(model.get(fsym('grp*', 'MarginfiGroup', 'deleverage_withdraw_window_cache.' + n).decl().name(), d))
+    lim, wt, lr = g('daily_limit'), g('withdrawn_today'), g('last_daily_reset_timestamp')
+    x = int(model.get('x', 0)); now = int(model.get('now', 0))
+    req = {'fn': 'update_withdrawn_equity', 'daily_limit': str(lim), 'withdrawn_today': str(wt), 'last_reset': str(lr), 'value': str(x), 'now': str(now)}
+    out = native([req])[0]
+    diff = max(min(now - lr, 2**63 - 1), -2**63); reset = diff >= 86400
+    exp_wt = min((0 if reset else wt) + (x >> 48), 2**32 - 1); exp_lr = now if reset else lr
+    exp_ok = not (lim != 0 and exp_wt > lim)
+    viol = bool(out.get('panic')) or (bool(out.get('ok')) != exp_ok) or (out.get('ok') and (int(out['withdrawn_today']) != exp_wt or int(out['last_reset']) != exp_lr or int(out['daily_limit']) != lim))
+    return bool(viol), {'request': req, 'native': out, 'reference': {'ok': exp_ok, 'withdrawn_today': exp_wt, 'last_reset': exp_lr},
+                        'verdict': 'the real function departs from the rolling-window reference on these inputs' if viol else 'not reproduced'}
+
+
+REPLAYERS = dict(globals().get('REPLAYERS', {})); REPLAYERS['window'] = replay_window
